@@ -65,6 +65,20 @@ def run(tier, seed):
         else:
             ck.violations.append(({"t": "div", "prop": PROP, "api": "json.Marshal(type M map[string]M)", "want": "a returned error at worst",
                                    "got": "fatal error: stack overflow", "case": {"kind": "rectype"}}, 1))
+    # open finding F-C06-5: a map keyed by pointers whose type has MarshalText: the key's pointer word is taken for the address of the
+    # key (reads of unrelated memory; with this witness an allocation of an absurd size, which is fatal)
+    probe = subprocess.run([ck.binary, "c06ptrkey"], stdout=subprocess.PIPE, stderr=subprocess.PIPE, text=True, env=vlib.GOENV, timeout=600)
+    if "C06PTRKEY-OK" not in probe.stdout:
+        if ck.findings.get("F-C06-5", {}).get("status") == "open":
+            ck.known["F-C06-5"] = 1
+        else:
+            ck.violations.append(({"t": "div", "prop": PROP, "api": "json.Marshal(map[*K]int, *K with MarshalText)", "want": "what encoding/json writes",
+                                   "got": (probe.stdout + probe.stderr)[:300], "case": {"kind": "ptrkey"}}, 1))
+    # fixed finding F-C06-6: slices of a byte kind whose element type has value-receiver unmarshal methods
+    probe = subprocess.run([ck.binary, "c06bytekinds"], stdout=subprocess.PIPE, stderr=subprocess.PIPE, text=True, env=vlib.GOENV, timeout=600)
+    if "C06BYTEKINDS-OK" not in probe.stdout:
+        ck.violations.append(({"t": "div", "prop": PROP, "api": "json.Unmarshal(*[]B, B of kind uint8 with a value-receiver UnmarshalJSON)", "want": "what encoding/json does",
+                               "got": (probe.stdout + probe.stderr)[:300], "case": {"kind": "bytekinds"}}, 1))
     ck.exhaustive = True
     ck.rule = ("TLC enumerates every heap of 3 nodes and up to 3-4 reference edges (pointer / slice / map / interface) with the verdict cyclic or not; "
                "each is built from map[string]any, []any, *map and interface values and marshalled by value and by pointer through Marshal, Append and "
